@@ -11,7 +11,7 @@ Import ListNotations.
    [fun2core_correct_statement]: for every annotated (type-checked) program inside the property's
    precondition, every terminating defined run of the source is reproduced by the Core machine on the
    translated program.  It WAS false of the faithful model: before fix d5d4151 by variable capture
-   (C02_fun2core_capture_refuted_before_fix below), and before fix <commitmain> by a call whose target is main
+   (C02_fun2core_capture_refuted_before_fix below), and before fix f929eb7 by a call whose target is main
    (C02_fun2core_call_to_main_refuted_before_fix, whose witness is also inside this precondition).  No counterexample
    to the current translation is known; proved is C02_fun2core_correct_fragment2. *)
 Definition fun2core_correct_statement : Prop :=
@@ -57,7 +57,7 @@ Theorem C02_capture_witness_fixed :
 Proof. exact capture_witness_fixed_lemma. Qed.
 Print Assumptions C02_capture_witness_fixed.
 
-(* ---------- REPAIRED (fix <commitmain> of /repo): a call whose target is main (former finding call-to-main) ----------
+(* ---------- REPAIRED (fix f929eb7 of /repo): a call whose target is main (former finding call-to-main) ----------
    REGRESSION statements about the translation before the fix ([compile_prog_before_fix]): compile_main gave the Core
    definition `main` no return-continuation parameter (its body ends in `exit`) while every call site passes
    args ++ [continuation]: a program that calls `main` (witness corpus/fun/call_main_nontail.sc, tied to the real
@@ -203,7 +203,7 @@ Theorem C02_fun2core_correct_partial :
     NoDup (map fdname (fcpdefs p)) ->
     ffind_def p "main" = Some d ->
     islf (fdbody d) = true ->
-    calls_main_prog p = false ->         (* since fix <commitmain>: no OTHER definition calls main (main itself has no calls) *)
+    calls_main_prog p = false ->         (* since fix f929eb7: no OTHER definition calls main (main itself has no calls) *)
     run_fun n p args = o -> snd o <> OOutOfFuel ->
     exists m, run_core m c args = o.
 Proof. exact fun2core_correct_partial_lemma. Qed.
